@@ -109,7 +109,8 @@ inline bool mine(long idx) { return opts.nshards <= 1 || idx % opts.nshards == o
 void rec(const char* fmt, ...) __attribute__((format(printf, 1, 2)));   // record line for the offline (python) checker, --rec file
 void recRaw(const void* p, size_t n);
 void cpuBudget(int seconds, const char* key);   // arm (seconds>0) / disarm (0) a CPU-time budget; firing = fail(key)
-void leakCheck(const char* key);                // LeakSanitizer recoverable check (no-op without ASan)
+void leakCheck(const char* key);
+size_t allocSize(const void* p);                // exact size of the heap block p (ASan builds), 0 when unknown                // LeakSanitizer recoverable check (no-op without ASan)
 void beginCase(long idx);       // clears history, records case index
 void endCase(u64 fingerprint, bool nontrivial);
 
